@@ -113,6 +113,49 @@ def Case.hasTest : List Case → Bool
   | [] => false
   | .mk isDef es _ :: cs => (!isDef && !es.isEmpty) || Case.hasTest cs
 
+/-! ### value-less expressions in value-consuming positions (known finding KF-25) -/
+
+/-- expressions whose code leaves nothing on the stack -/
+def Expr.valueLess : Expr → Bool
+  | .assign _ _ | .ifE _ _ _ | .whileE _ _ | .foreachE _ _ _ _ | .switchE _ _ | .funcDef _ _ _ | .localE _
+  | .postfix _ _ => true
+  | .infix op _ _ => isCompound op
+  | _ => false
+
+mutual
+  /-- does the tree use a value-less expression where a value is consumed? -/
+  def Expr.vlo : Expr → Bool
+    | .arrayLit els => Expr.vloArgs els
+    | .hashLit ps => Pair.vlos ps
+    | .prefix _ r => r.valueLess || r.vlo
+    | .infix op l r => (!isCompound op && l.valueLess) || r.valueLess || l.vlo || r.vlo
+    | .ternary c t f => c.valueLess || t.valueLess || f.valueLess || c.vlo || t.vlo || f.vlo
+    | .index l i => l.valueLess || i.valueLess || l.vlo || i.vlo
+    | .call _ args => Expr.vloArgs args
+    | .assign _ v => v.valueLess || v.vlo
+    | .ifE c cons alt => c.valueLess || c.vlo || Stmt.vlos cons || (match alt with | none => false | some a => Stmt.vlos a)
+    | .whileE c b => c.valueLess || c.vlo || Stmt.vlos b
+    | .foreachE _ _ v b => v.valueLess || v.vlo || Stmt.vlos b
+    | .switchE v cs => v.valueLess || v.vlo || Case.vlos cs
+    | .funcDef _ _ b => Stmt.vlos b
+    | _ => false
+  def Expr.vloArgs : List Expr → Bool
+    | [] => false
+    | e :: es => e.valueLess || e.vlo || Expr.vloArgs es
+  def Pair.vlos : List Pair → Bool
+    | [] => false
+    | .mk k v :: ps => k.valueLess || v.valueLess || k.vlo || v.vlo || Pair.vlos ps
+  def Stmt.vlo : Stmt → Bool
+    | .expr e => e.vlo
+    | .ret e => e.valueLess || e.vlo
+  def Stmt.vlos : List Stmt → Bool
+    | [] => false
+    | s :: ss => s.vlo || Stmt.vlos ss
+  def Case.vlos : List Case → Bool
+    | [] => false
+    | .mk _ es b :: cs => Expr.vloArgs es || Stmt.vlos b || Case.vlos cs
+end
+
 /-! ### depth of the tree, as the recursion of `compile` sees it -/
 mutual
   def Expr.depth : Expr → Nat
